@@ -155,7 +155,11 @@ def n6(ctx, F, rule="C10.N6"):
             continue
         t1 = hir.fold(term, {g_: ("ctor", SOME, (("var", "ENTRY"),)) for g_ in gets})
         flds = {t_ for t_ in hir.subterms(t1) if isinstance(t_, tuple) and t_[:1] == ("field",) and t_[1] == ("var", "ENTRY")}
-        if not any(f_[2] == "depth" for f_ in flds):
+        # the shortcut is the return that hands back something of the entry (its move, its score) - whatever its condition looks at
+        names_e = {nm for g_ in g if g_[0] == "if" and isinstance(g_[1], tuple) and g_[1][:1] == ("let",) and
+                   any(x_ in gets for x_ in hir.subterms(g_[1][2])) for nm in (g_[1][3] if len(g_[1]) > 3 else ())}
+        rv = sym(r["e"])
+        if not any(isinstance(t_, tuple) and t_[:1] == ("field",) and t_[1][:1] == ("var",) and t_[1][1] in names_e for t_ in hir.subterms(rv)):
             continue
         n += 1
         bad = []
